@@ -53,7 +53,40 @@ def shard_scc(shard, nshards, tier, seed):
             col.check(not msg)
             if msg:
                 col.violation('scc', {'entry': 'scc'}, {'n': n_, 'edges': edges, 'key_order': order, 'rev': rev}, note=msg)
+    sparse_orders(col, shard, nshards, tier, seed)
     return col.result(symx.STATS)
+
+
+def sparse_orders(col, shard, nshards, tier, seed):
+    """digraphs on 4 (and 5) vertices with few edges (an AtMost constraint handed to the solver), no self-loops, under EVERY insertion order of the keys
+    (a sample of 12 orders for n=5) and both orders of every neighbour list: cross edges into finished components vs back edges depend on the visiting order"""
+    import random
+    for n, maxe in ((4, 4),) if tier == 'quick' else ((4, 6), (5, 4)):
+        bits = [(i, j) for i in range(n) for j in range(n) if i != j]
+        E = {b: z3.Bool(f'e_{b[0]}_{b[1]}') for b in bits}
+        perms = list(itertools.permutations(range(n)))
+        if len(perms) > 24:
+            perms = [perms[0], perms[-1]] + random.Random(seed).sample(perms[1:-1], 10)
+        P = z3.Int('perm')
+        RV = z3.Bool('rev_all')
+        k = (nshards - 1).bit_length()
+        fixed = [E[bits[i]] if (shard >> i) & 1 else z3.Not(E[bits[i]]) for i in range(k)]
+        eng = symx.Engine(assumptions=fixed + [P >= 0, P < len(perms), z3.AtMost(*[E[b] for b in bits], maxe)])
+
+        def body():
+            edges = [[i, j] for bi, (i, j) in enumerate(bits) if symx.branch(E[(i, j)], free=False)]
+            order = list(perms[symx.choose(P, 0, len(perms), free=True)])
+            rev = [symx.branch(RV, free=True)] * n
+            return (n, edges, order, rev, c19_run.run_scc(n, edges, order, rev))
+        for p in eng.run(body):
+            if p.exc is not None:
+                col.violation('scc', {'entry': 'scc', 'exception': type(p.exc).__name__, 'part': 'sparse'}, {'n': n}, note=repr(p.exc))
+                continue
+            n_, edges, order, rev, msg = p.value
+            col.case(('scc', n_, tuple(map(tuple, edges)), tuple(order), tuple(rev)), nontrivial=True, sample={'n': n_, 'edges': edges, 'key_order': order, 'rev': rev})
+            col.check(not msg)
+            if msg:
+                col.violation('scc', {'entry': 'scc', 'part': 'sparse'}, {'n': n_, 'edges': edges, 'key_order': order, 'rev': rev}, note=msg)
 
 
 MUTATIONS = [['add_rule', 'S', 'N'], ['add_rule', 'X', 'S'], ['add_rule', 'N', 'X'], ['rhs_add_edge', 0, 'N'], ['rhs_add_edge', 1, 'X'],
@@ -145,7 +178,7 @@ def main():
                     'graph is a vector of symbolic Booleans/ints; every branch of the real code and of the decoder is resolved by a solver '
                     'feasibility query, so the explored paths partition the whole bounded input space (exhaustive). On each path the result '
                     'is compared with an independent oracle (reachability closure; definition of the dependency relation).',
-        bounds={'scc_max_vertices': nmax, 'symbolic_insertion_order_up_to': 3, 'nt_rules': 2 if a.tier == 'quick' else 3},
+        bounds={'scc_max_vertices': nmax, 'symbolic_insertion_order_up_to': 3, 'sparse_digraphs': 'n=4 with <=4 edges (thorough <=6) under all 24 key orders x both neighbour orders; thorough also n=5 with <=4 edges under 12 key orders', 'nt_rules': 2 if a.tier == 'quick' else 3},
         assumptions=['vertices are hashable ints; recursion depth is not an issue at this size',
                      'nonterminal_graph: arity-0 labels only (arity is irrelevant to the dependency relation)'],
         exhaustive=True, technique='bounded symbolic execution (z3 path forking) + independent reachability oracle')
